@@ -33,7 +33,9 @@ contract(
     "ext:re.compile",
     types={"__params__": ["pattern", "flags"], "pattern": "str", "flags": "int", "__default__flags": "0"},
     returns="Pattern",
-    ensures=["result.pattern == pattern", "result.flags == flags", "fresh(result)"],
+    # (re.compile of a str pattern always adds re.UNICODE = 32 to the flags it reports)
+    requires=["flags == 0 or flags == 16"],
+    ensures=["result.pattern == pattern", "result.flags == flags + 32", "fresh(result)"],
     modifies=["fresh"],
     trusted=True,
 )
